@@ -502,7 +502,7 @@ Section Interleave.
       cbn [ops_ok] in Hok. apply Nat.eqb_eq in Hok.
       assert (n = length sched) as -> by lia.
       unfold reaches in Hr. rewrite skipn_all in Hr. cbn in Hr. injection Hr as ->. reflexivity.
-    - destruct o as [c| |]; cbn [steps step appended ops_ok] in *.
+    - destruct o as [c| | |c]; cbn [steps step appended ops_ok] in *; [| | |discriminate].
       + (* append_epoch *)
         assert (Ha : append_ok (lastc pre) c = true).
         { unfold accepts in Hacc. rewrite Hs in Hacc.
@@ -910,5 +910,128 @@ Proof.
   split; [reflexivity|]. split; [reflexivity|]. split; [exact ex_chunk_ok|].
   split. { split; [lia|]. intros c _. exists (dur c). lia. }
   split; [reflexivity|].
+  eexists. split; [vm_compute; reflexivity|]. split; vm_compute; reflexivity.
+Qed.
+
+(* ------------------------------------------------------------------------------------------ *)
+(* guarded appends: append_epoch that raises, the caller catches the error and goes on *)
+Theorem rejected_append_is_noop P g c :
+  append_ok (lastc (cfgs (g_mgr g))) c = false ->
+  step P g (TryAppend c) = Ok g /\ forall ops, steps P g (TryAppend c :: ops) = steps P g ops.
+Proof.
+  intros H.
+  assert (E : step P g (TryAppend c) = Ok g).
+  { cbn [step]. unfold try_append_epoch, mgr_append. rewrite H. reflexivity. }
+  split; [exact E|]. intros ops. cbn [steps]. rewrite E. reflexivity.
+Qed.
+
+Theorem accepted_try_append_is_append P g c :
+  append_ok (lastc (cfgs (g_mgr g))) c = true ->
+  step P g (TryAppend c) = step P g (AppendEpoch c).
+Proof.
+  intros H. cbn [step]. unfold try_append_epoch, append_epoch, mgr_append. rewrite H. reflexivity.
+Qed.
+
+Lemma sample_next_cfgs P g g' : sample_next P g = Ok g' -> cfgs (g_mgr g') = cfgs (g_mgr g).
+Proof.
+  unfold sample_next, mgr_next.
+  destruct (nth_error (cfgs (g_mgr g)) (ptr (g_mgr g))) as [c|]; [|discriminate].
+  destruct (epoch_run P _ (g_core g)) as [co|e]; cbn [bind]; [|discriminate].
+  intros H. injection H as <-. reflexivity.
+Qed.
+
+Lemma sample_all_fuel_cfgs P k : forall g g',
+  sample_all_fuel P k g = Ok g' -> cfgs (g_mgr g') = cfgs (g_mgr g).
+Proof.
+  induction k as [|k IH]; intros g g'; cbn [sample_all_fuel].
+  - destruct (has_more (g_mgr g)); [discriminate|]. intros H. injection H as <-. reflexivity.
+  - destruct (has_more (g_mgr g)); [|intros H; injection H as <-; reflexivity].
+    destruct (sample_next P g) as [g1|e] eqn:E1; cbn [bind]; [|discriminate].
+    intros H. rewrite (IH _ _ H). eapply sample_next_cfgs; eauto.
+Qed.
+
+Lemma steps_normalize P ops : forall g,
+  steps P g ops = steps P g (normalize (lastc (cfgs (g_mgr g))) ops).
+Proof.
+  induction ops as [|o r IH]; intros g; [reflexivity|].
+  destruct o as [c| | |c]; cbn [normalize].
+  - cbn [steps step]. unfold append_epoch, mgr_append.
+    destruct (append_ok (lastc (cfgs (g_mgr g))) c); cbn [bind]; [|reflexivity].
+    rewrite (IH (mkEng _ _)). cbn [g_mgr cfgs]. rewrite lastc_app. reflexivity.
+  - cbn [steps step]. destruct (sample_next P g) as [g1|e] eqn:E1; cbn [bind]; [|reflexivity].
+    rewrite (IH g1), (sample_next_cfgs _ _ _ E1). reflexivity.
+  - cbn [steps step]. unfold sample_all.
+    destruct (sample_all_fuel P _ g) as [g1|e] eqn:E1; cbn [bind]; [|reflexivity].
+    rewrite (IH g1), (sample_all_fuel_cfgs _ _ _ _ E1). reflexivity.
+  - destruct (append_ok (lastc (cfgs (g_mgr g))) c) eqn:Ea.
+    + cbn [steps]. rewrite (accepted_try_append_is_append P g c Ea).
+      cbn [step]. unfold append_epoch, mgr_append. rewrite Ea. cbn [bind].
+      rewrite (IH (mkEng _ _)). cbn [g_mgr cfgs]. rewrite lastc_app. reflexivity.
+    + rewrite (proj2 (rejected_append_is_noop P g c Ea)). apply IH.
+Qed.
+
+Lemma appends_cfgs l : forall m m', appends m l = Ok m' -> cfgs m' = cfgs m ++ l.
+Proof.
+  induction l as [|c r IH]; intros m m'; cbn [appends].
+  - intros H. injection H as <-. now rewrite app_nil_r.
+  - unfold mgr_append. destruct (append_ok (lastc (cfgs m)) c); [|discriminate].
+    intros H. rewrite (IH _ _ H). cbn [cfgs]. now rewrite <- app_assoc.
+Qed.
+
+(* an operation sequence with guarded appends behaves exactly like the sequence in which the
+   rejected appends are deleted and the accepted ones are ordinary appends *)
+Theorem run_normalize P init ops : run P init ops = run P init (normalize (lastc init) ops).
+Proof.
+  unfold run, engine_init. destruct (appends mgr0 init) as [m|e] eqn:E; cbn [bind]; [|reflexivity].
+  rewrite (steps_normalize P ops (mkEng m (core_init P))). cbn [g_mgr].
+  rewrite (appends_cfgs _ _ _ E). reflexivity.
+Qed.
+
+(* the lifecycle theorem over operation sequences that contain rejected (and accepted) guarded
+   appends: the schedule is made of the accepted configs only *)
+Theorem trace_is_lifecycle_guarded chunk needs init ops sched :
+  valid sched = true -> sched = init ++ appended (normalize (lastc init) ops) ->
+  chunk_ok chunk sched -> ops_ok (length init) (normalize (lastc init) ops) = true ->
+  exists g, run (mkP chunk needs SetsFlag) init ops = Ok g
+    /\ calls g = spec_calls (length needs) (any_needs needs) sched
+    /\ cfgs (g_mgr g) = sched /\ has_more (g_mgr g) = false.
+Proof.
+  intros Hv Hs Hc Hok. rewrite run_normalize.
+  exact (trace_is_lifecycle chunk needs init _ sched Hv Hs Hc Hok).
+Qed.
+
+(* no rejected config is ever part of the schedule the kernels are driven through *)
+Theorem guarded_equals_batch P init ops sched :
+  valid sched = true -> sched = init ++ appended (normalize (lastc init) ops) ->
+  chunk_ok (p_chunk P) sched -> ops_ok (length init) (normalize (lastc init) ops) = true ->
+  exists g, run P init ops = Ok g /\ run P sched [SampleAll] = Ok g.
+Proof.
+  intros Hv Hs Hc Hok. rewrite run_normalize.
+  exact (incremental_equals_batch P init _ sched Hv Hs Hc Hok).
+Qed.
+
+(* hypotheses satisfiable with every rejection reason: thinning > duration, thinning not dividing a
+   posterior duration, warm-up after posterior, second initial-values epoch, duration 0 *)
+Definition ex_guarded_ops : list op :=
+  [SampleNext; TryAppend (mkE Fast 2 3); AppendEpoch (mkE Fast 2 2); SampleNext;
+   TryAppend (mkE Init 1 1); TryAppend (mkE Fast 0 1); TryAppend (mkE Post 4 2);
+   TryAppend (mkE Post 4 3); SampleNext; TryAppend (mkE Burnin 2 1); AppendEpoch (mkE Post 2 1); SampleAll].
+Definition ex_guarded_schedule : list econf :=
+  [mkE Init 1 1; mkE Fast 2 2; mkE Post 4 2; mkE Post 2 1].
+
+Example guarded_hypotheses_satisfiable :
+  valid ex_guarded_schedule = true
+  /\ ex_guarded_schedule = [mkE Init 1 1] ++ appended (normalize (lastc [mkE Init 1 1]) ex_guarded_ops)
+  /\ chunk_ok 2 ex_guarded_schedule
+  /\ ops_ok 1 (normalize (lastc [mkE Init 1 1]) ex_guarded_ops) = true
+  /\ rejected (lastc [mkE Init 1 1]) ex_guarded_ops
+     = [mkE Fast 2 3; mkE Init 1 1; mkE Fast 0 1; mkE Post 4 3; mkE Burnin 2 1]
+  /\ (exists g, run (mkP 2 [true] SetsFlag) [mkE Init 1 1] ex_guarded_ops = Ok g
+                /\ length (calls g) = 17%nat /\ count_endwarmup (calls g) = 1%nat).
+Proof.
+  split; [reflexivity|]. split; [reflexivity|]. split.
+  { split; [lia|]. intros c Hin. cbn in Hin.
+    destruct Hin as [<-|[<-|[<-|[]]]]; cbn; [exists 1|exists 2|exists 1]; reflexivity. }
+  split; [reflexivity|]. split; [reflexivity|].
   eexists. split; [vm_compute; reflexivity|]. split; vm_compute; reflexivity.
 Qed.
